@@ -350,6 +350,9 @@ func randomCase(r *rand.Rand, id int) Case31 {
 	}
 	if r.Intn(8) == 0 {
 		cs.Change = "server_max_lower"
+		if cs.Key == "E" { // Ed25519 certificates cannot be used below TLS 1.2
+			cs.Key = "P"
+		}
 	}
 	return cs
 }
@@ -359,6 +362,9 @@ func main() {
 		obs.Fatal("usage")
 	}
 	switch os.Args[1] {
+	case "facts":
+		b, _ := json.Marshal(tlsh.GetFacts())
+		fmt.Println(string(b))
 	case "probe":
 		out := map[string]int{}
 		for _, v := range []int{12, 13} {
